@@ -386,7 +386,8 @@ package rtsp
 //@   ensures err == nil ==> len(sl) == n && forall(i, 0, n, sl[i] == ghostBytes(b, "src")[ghostInt(b, "rpos") + i])
 //@   ensures ghostInt(b, "rpos") >= 0 && ghostInt(b, "rpos") <= 1<<60
 //@ extern func (l *xlog.Logger) Warn(msg string, fields ...xlog.Field) ()
-//@   modifies
+//@   modifies ghostInt(l, "problems")
+//@   ensures ghostInt(l, "problems") == old(ghostInt(l, "problems")) + 1
 //@ extern func (h receiveHandler) onRequest(req *Request) (err error)
 //@   requires req != nil
 //@   modifies ghostInt(h, "handled"), all()
@@ -410,3 +411,73 @@ package rtsp
 //@   assert[call:ReadResponse] !nextIs(r, 0, 0x24) && nextIsRTSP(r) && ghostInt(r, "rpos") == old(ghostInt(r, "rpos")) && ghostInt(handler, "handled") == old(ghostInt(handler, "handled"))
 //@   assert[call:ReadRequest] !nextIs(r, 0, 0x24) && !nextIsRTSP(r) && ghostInt(r, "rpos") == old(ghostInt(r, "rpos")) && ghostInt(handler, "handled") == old(ghostInt(handler, "handled"))
 //@   ensures ghostInt(handler, "handled") == old(ghostInt(handler, "handled")) || ghostInt(handler, "handled") == old(ghostInt(handler, "handled")) + 1
+
+// ---- C20: the play loop of a pulled stream --------------------------------------------------------------------------
+// Whatever the camera does after PLAY - stops sending (read deadline), resets, sends garbage, or a handler panics - the
+// loop is left through the deferred cleanup: the connection count taken at the start is given back exactly once, the
+// stream is unregistered (media.Unregist closes it and its consumers: C03/C05), the connection is closed and
+// forgotten. After ANY reported problem (a failed deadline, a receive error, a failed keep-alive) no further read is
+// attempted: a stalled or broken camera cannot keep the loop alive.
+//@ import "time"
+//@ import "runtime/debug"
+//@ import "github.com/cnotch/ipchub/stats"
+//@ import "github.com/cnotch/ipchub/config"
+//@ global stats.RtspConns readonly
+//@ extern func (c stats.Conns) Add() (n int64)
+//@   modifies ghostInt(c, "active")
+//@   ensures ghostInt(c, "active") == old(ghostInt(c, "active")) + 1
+//@ extern func (c stats.Conns) Release() (n int64)
+//@   modifies ghostInt(c, "active")
+//@   ensures ghostInt(c, "active") == old(ghostInt(c, "active")) - 1
+// the registry as seen from here (its real behaviour is verified in package media: Regist / Unregist contracts)
+//@ extern func media.Regist(s *media.Stream) ()
+//@   requires s != nil
+//@   modifies ghostInt(s, "regs")
+//@   ensures ghostInt(s, "regs") == old(ghostInt(s, "regs")) + 1
+//@ extern func media.Unregist(s *media.Stream) ()
+//@   requires s != nil
+//@   modifies ghostInt(s, "unregs")
+//@   ensures ghostInt(s, "unregs") == old(ghostInt(s, "unregs")) + 1
+//@ extern func time.Now() (t time.Time)
+//@   modifies
+//@ extern func (t time.Time) Add(d time.Duration) (r time.Time)
+//@   modifies
+//@ extern func (t time.Time) Sub(u time.Time) (d time.Duration)
+//@   modifies
+//@ extern func config.NetHeartbeatInterval() (d time.Duration)
+//@   modifies
+//@ extern func config.NetTimeout() (d time.Duration)
+//@   modifies
+//@ extern func debug.Stack() (b []byte)
+//@   modifies
+//@ extern func (c *buffered.Conn) Reader() (r *bufio.Reader)
+//@   requires c != nil
+//@   modifies
+//@   ensures r != nil
+//@ extern func (c *buffered.Conn) SetReadDeadline(t time.Time) (err error)
+//@   requires c != nil
+//@   modifies
+//@ extern func (l *xlog.Logger) Infof(format string, args ...interface{}) ()
+//@   modifies
+//@ extern func (l *xlog.Logger) Error(msg string, fields ...xlog.Field) ()
+//@   modifies ghostInt(l, "problems")
+//@   ensures ghostInt(l, "problems") == old(ghostInt(l, "problems")) + 1
+//@ func (c *PullClient) playStream() ()
+//@   recovers
+//@   requires c != nil && c.stream != nil && c.conn != nil && c.logger != nil && c.url != nil && !c.closed && !held(&c.lockW) && stats.RtspConns != nil
+//@   requires 0 <= ghostInt(c, "handled") && ghostInt(c, "handled") < 1<<40 && 0 <= ghostInt(c.logger, "problems") && ghostInt(c.logger, "problems") < 1<<40
+//@   modifies all()
+//@   loop 0: modifies all()
+//@   loop 0: invariant c.conn != nil && c.stream != nil && c.logger != nil && c.url != nil && c.conn == old(c.conn) && c.stream == old(c.stream) && c.logger == old(c.logger) && !held(&c.lockW)
+//@   loop 0: invariant ghostInt(stats.RtspConns, "active") == old(ghostInt(stats.RtspConns, "active")) + 1 && ghostInt(c.stream, "unregs") == old(ghostInt(c.stream, "unregs")) && (c.closed ==> ghostBool(c.conn, "closed"))
+//@   loop 0: invariant 0 <= ghostInt(c, "handled") && ghostInt(c, "handled") < 1<<40 && ghostInt(c.logger, "problems") == old(ghostInt(c.logger, "problems"))
+// assumed about the three handlers of the pull client (onPack / onResponse / onRequest, reached through receive): they
+// relay packets and answer the camera; they do not replace the connection, the stream, the logger or the URL, do not
+// touch the connection count, the registration or the problem counter, and leave the write lock free
+//@   assume[after:receive] c.conn == old(c.conn) && c.stream == old(c.stream) && c.logger == old(c.logger) && c.url == old(c.url) && !held(&c.lockW) && ghostInt(stats.RtspConns, "active") == atHead(ghostInt(stats.RtspConns, "active")) && ghostInt(c.stream, "unregs") == atHead(ghostInt(c.stream, "unregs")) && (c.closed ==> ghostBool(c.conn, "closed")) && (!c.closed ==> ghostBool(c.conn, "closed") == atHead(ghostBool(c.conn, "closed"))) && ghostInt(c.logger, "problems") == atHead(ghostInt(c.logger, "problems")) && 0 <= ghostInt(c, "handled") && ghostInt(c, "handled") < 1<<40
+//@   assert[call:SetReadDeadline] ghostInt(c.logger, "problems") == old(ghostInt(c.logger, "problems"))
+//@   ensures ghostInt(stats.RtspConns, "active") == old(ghostInt(stats.RtspConns, "active"))
+//@   ensures ghostInt(old(c.stream), "unregs") == old(ghostInt(c.stream, "unregs")) + 1
+//@   ensures c.closed
+//@   ensures c.conn == nil && c.stream == nil
+//@   ensures ghostBool(old(c.conn), "closed")
